@@ -642,8 +642,16 @@ class NUMERIC(FieldType):
         return min_value, max_value
 
     def default_column(self):
-        return columns.NumericColumn(self.sortable_typecode,
-                                     default=self.default)
+        default = self.default
+        if self.numtype is float:
+            # The column holds sortable integers, not floats
+            if default != default:
+                # NaN (no default given): sort documents without a value last
+                default = typecode_max[self.sortable_typecode]
+            else:
+                default = to_sortable(self.numtype, self.bits, self.signed,
+                                      default)
+        return columns.NumericColumn(self.sortable_typecode, default=default)
 
     def is_valid(self, x):
         try:
